@@ -107,9 +107,11 @@ def families(ctx, rnd, thorough, which):
             scs.append(logix_rw.session(rnd, 1000 + i, prefix="long", n_calls=3, max_reqs=rnd.choice([40, 120, 300]), n_tags=30))
     if "long" in which:
         # many requests with long symbolic names on the small connection: packets filled to the brim by REQUEST size
-        for i, L in enumerate([40, 39, 21, 9, 38, 30, 12][:7 if thorough else 3]):
+        for i, L in enumerate([40, 39, 21, 9, 38, 30, 12, 40, 33, 25][:10 if thorough else 5]):
             nm = rnd.randint(45, 90)
-            big = [{"name": ("N%02d_" % j + "x" * L)[:max(4, L - (j % 3))], "code": rnd.choice([0xC4, 0xC3, 0xC2]), "dims": []} for j in range(nm)]
+            # name lengths vary within a session (from i = 3 on freely), so packet fills land on every residue below the limit
+            big = [{"name": ("N%02d_" % j + "x" * L)[:max(4, L - (j % 3) if i < 3 else rnd.randint(4, L))], "code": rnd.choice([0xC4, 0xC3, 0xC2]), "dims": []}
+                   for j in range(nm)]
             sc = logix_rw.session(rnd, 1100 + i, prefix="brim", n_calls=0, big=big, policy="LargeRefused", caps=False, n_tags=1)
             rd = S.read_call([R([(b["name"], [])]) for b in big])
             wr = S.write_call([R([(b["name"], [])], value=rnd.randint(0, 100)) for b in big])
